@@ -204,7 +204,7 @@ def check(case, closed=()):
                 finally:
                     eng.close()
         except engines.EngineError as err:
-            if e == "pg" and engines.surrogate_cannot_run(err):
+            if engines.engine_limit(err) or (e == "pg" and engines.surrogate_cannot_run(err)):
                 info["surrogate_cannot_run"] = True
                 continue
             return (
